@@ -551,7 +551,84 @@ class Inliner:
                 return None
         return None
 
+    def _inline_for_generator(self, fi, s: ast.For, nested, depth) -> Optional[List[ast.stmt]]:
+        """for v in self._gen(..): BODY   ->   the generator's body with every 'yield E' replaced by 'v = E; BODY'.
+        Exact when the generator has no return statement, BODY has no break / continue of its own level, the loop has no else
+        clause and the generator's frame is not observable otherwise (private helper, not stored)."""
+        if s.orelse or not isinstance(s.iter, ast.Call):
+            return None
+        r = self._resolve(fi, s.iter, nested)
+        if r is None:
+            return None
+        callee, recv, closure = r
+        fn = callee.node
+        if not _contains(fn, (ast.Yield,)) or _contains(fn, (ast.YieldFrom, ast.Return)):
+            return None
+
+        def own_level(stmts, kinds):
+            for x in stmts:
+                if isinstance(x, kinds):
+                    return True
+                if isinstance(x, (ast.For, ast.AsyncFor, ast.While, ast.FunctionDef, ast.AsyncFunctionDef, ast.ClassDef)):
+                    if isinstance(x, (ast.For, ast.AsyncFor, ast.While)) and own_level(x.orelse, kinds):
+                        return True
+                    continue
+                for _, lst in _stmt_lists(x):
+                    if own_level(lst, kinds):
+                        return True
+            return False
+        if own_level(s.body, (ast.Break, ast.Continue)):
+            return None
+        yields = [y for y in _walk_noscope(fn) if isinstance(y, ast.Yield)]
+        # every yield must be an expression statement 'yield E'
+        ystmts = [x for x in _walk_noscope(fn) if isinstance(x, ast.Expr) and isinstance(x.value, ast.Yield)]
+        if len(ystmts) != len(yields) or any(y.value is None for y in yields):
+            return None
+        outmap = None
+        if isinstance(s.target, ast.Name):
+            ids = {y.value.id if isinstance(y.value, ast.Name) else None for y in yields}
+            own = _own_locals(fn)
+            free = {n.id for n in ast.walk(fn) if isinstance(n, ast.Name)} - own
+            if len(ids) == 1 and None not in ids and next(iter(ids)) in own and s.target.id not in free:
+                outmap = {next(iter(ids)): s.target.id}
+        try:
+            binds, body = self._instantiate(callee, s.iter, recv, closure, outmap)
+        except Unsupported:
+            if outmap is None:
+                return None
+            outmap = None
+            try:
+                binds, body = self._instantiate(callee, s.iter, recv, closure)
+            except Unsupported:
+                return None
+        first = [True]
+
+        def repl(stmts):
+            out = []
+            for x in stmts:
+                if isinstance(x, ast.Expr) and isinstance(x.value, ast.Yield):
+                    blk = s.body if first[0] else copy.deepcopy(s.body)
+                    first[0] = False
+                    if outmap is None:
+                        out.append(ast.copy_location(ast.Assign(targets=[copy.deepcopy(s.target)], value=x.value.value), x))
+                    out.extend(blk)
+                    continue
+                if isinstance(x, (ast.FunctionDef, ast.AsyncFunctionDef, ast.ClassDef)):
+                    out.append(x)
+                    continue
+                for f, lst in _stmt_lists(x):
+                    lst[:] = repl(lst)
+                out.append(x)
+            return out
+        new = repl(body)
+        for x in binds + new:
+            ast.fix_missing_locations(x)
+        self.inlined.append((fi.qualname, callee.qualname))
+        return binds + new
+
     def _inline_stmt(self, fi, s, nested, depth) -> Optional[List[ast.stmt]]:
+        if isinstance(s, ast.For):
+            return self._inline_for_generator(fi, s, nested, depth)
         # position: which expression of s is evaluated first
         if isinstance(s, ast.Expr):
             field = "value"
@@ -562,6 +639,8 @@ class Inliner:
             field = "value"
         elif isinstance(s, ast.Return) and s.value is not None:
             field = "value"
+        elif isinstance(s, ast.AugAssign) and isinstance(s.target, ast.Name):
+            field = "value"  # a local is read before the right-hand side runs, but no callee can re-bind it
         elif isinstance(s, (ast.If, ast.Assert)):
             field = "test"
         else:
@@ -600,7 +679,7 @@ class Inliner:
             new = body + [ast.copy_location(ast.Return(value=None), line)]
             # fall-off-the-end returns None; an unreachable trailing return is dropped below
             new = self._drop_dead_return(new)
-        elif isinstance(s, ast.Expr) and is_whole:
+        elif isinstance(s, ast.Expr) and s.value is call:
             new = self._tail(body + [ast.copy_location(ast.Return(value=None), line)],
                              lambda r: [] if r.value is None or _pure(r.value) else
                              [ast.copy_location(ast.Expr(value=r.value), r)])
